@@ -547,6 +547,6 @@ RULES = [
     ("C15-R6", r6_loader_derivation, 3),
     ("C15-R7", r7_dumper_is_read_only, 8),
     ("C15-R8", r8_boundary_vocabulary, 1),
-    ("C15-R9", r9_cached_defaults, 3),
+    ("C15-R9", r9_cached_defaults, 2),
     ("C15-R10", r10_added_equations_verbatim, 2),
 ]
